@@ -119,7 +119,7 @@ fn reset_cache() {
 pub fn c26(args: &Args) -> i32 {
     quiet_panics();
     let run = Run::new(args, "exploration", 50.0, 900.0);
-    run.set_rule("E5: all ordered pairs of vectors on {-2,-1,0,1,2,1e6,-1e6}^d (d<=2 quick, <=3 thorough) for euclidean, squared euclidean, manhattan, cosine: symmetry, non-negativity, zero on identical inputs, cosine in [0,2]; int8 twins (native and dequantized) on {-128,-1,0,1,127}^d; quantize (linear, minmax, symmetric) then dequantize with the inverse affine map stays within one quantization step of every input component; lsh_probes(bucket,h,n) for all h<=6, all buckets < 2^h, all n <= 2^h+2 (and lsh_probes_ranked / lsh_multi_probe on a distance-vector pool): first = bucket, distinct, Hamming distance non-decreasing, at most n. E2 (sequential cache leg): ALL sequences up to depth L over {7 bucket calls (same table/planes with other dimension, other table, other plane count, clamped plane count, int8 twin), clear, configure size 0/1/2, 3 prewarms}: every bucket call returns the value computed in a freshly cleared cache. non-trivial = distinct pairs/vectors/sequences excluding all-zero inputs; floats compared with relative tolerance 1e-5");
+    run.set_rule("E5: all ordered pairs of vectors on {-2,-1,0,1,2,1e6,-1e6}^d (d<=2 quick, <=3 thorough) for euclidean, squared euclidean, manhattan, cosine: symmetry, non-negativity, zero on identical inputs, cosine in [0,2]; int8 twins (native and dequantized) on {-128,-1,0,1,127}^d; quantize (linear, minmax, symmetric) then dequantize with the inverse affine map stays within one quantization step of every input component; lsh_probes(bucket,h,n) for all h<=6, all buckets < 2^h, all n <= 2^h+2 (and lsh_probes_ranked / lsh_multi_probe on a distance-vector pool): first = bucket, distinct, Hamming distance non-decreasing, at most n. E2 (sequential cache leg): ALL sequences up to depth L over {7 bucket calls (same table/planes with other dimension, other table, other plane count, clamped plane count, int8 twin), clear, configure size 0/1/2, 3 prewarms}: every bucket call returns the value computed in a freshly cleared cache. E4 (cache interleavings): see `cache_interleavings` in the coverage block. non-trivial = distinct pairs/vectors/sequences excluding all-zero inputs; floats compared with relative tolerance 1e-5");
     run.assume("the property's title mentions temporal builtins but its statement lists no temporal law: none is asserted");
     run.assume("quantization step: linear/minmax (max-min)/255, symmetric max_abs/127; the reconstruction uses the inverse of the documented affine map (dequantize_vector_with_scale for symmetric)");
     let d_max = if run.quick() { 2 } else { 3 };
@@ -347,6 +347,8 @@ pub fn c26(args: &Args) -> i32 {
         completed = len;
     }
     reset_cache();
+    cache_interleavings(&run, &calls, &reference);
+    reset_cache();
     run.evaluations.fetch_add(seqs, std::sync::atomic::Ordering::Relaxed);
     run.nontrivial.lock().unwrap().extend(nontrivial_local.iter().map(|x| x ^ 0xabcdef0000));
     run.put("cache_sequences", json!(seqs));
@@ -354,6 +356,93 @@ pub fn c26(args: &Args) -> i32 {
     run.put("cache_depth_completed", json!(completed));
     run.put("cache_alphabet", json!(alpha.len()));
     run.finish()
+}
+
+/// E4 leg: 2-3 real threads on the process-global hyperplane cache, every schedule up to a preemption bound at the
+/// cache's lock acquisitions; every bucket call must return the reference value whatever the interleaving.
+fn cache_interleavings(run: &Run, calls: &[Call], reference: &[i64]) {
+    use crate::e4::{execute, explore, Body, ExecError, Point};
+    use std::sync::{Arc, Mutex};
+    let b = COp::Bucket;
+    // (name, initial cache size, prewarmed keys, threads)
+    let scenarios: Vec<(&str, usize, Vec<usize>, Vec<Vec<COp>>)> = vec![
+        ("same_key_miss_race", 64, vec![], vec![vec![b(0)], vec![b(1)], vec![b(0)]]),
+        ("lookup_vs_clear", 64, vec![0], vec![vec![b(0), b(1)], vec![COp::Clear, b(0)]]),
+        ("eviction_with_capacity_one", 1, vec![0], vec![vec![b(0), b(3)], vec![b(4), b(0)]]),
+        ("shrink_while_filling", 64, vec![0, 2], vec![vec![b(3), b(0)], vec![COp::Cfg(1), b(4)], vec![b(2)]]),
+        ("capacity_zero", 0, vec![], vec![vec![b(0), b(0)], vec![b(3)], vec![COp::Cfg(0), b(1)]]),
+        ("int8_twin_shares_entries", 2, vec![], vec![vec![b(6), b(0)], vec![b(0), b(6)], vec![COp::Clear]]),
+        ("dimension_variants_of_one_table", 1, vec![], vec![vec![b(0), b(2)], vec![b(2), b(0)], vec![COp::Prewarm(1)]]),
+    ];
+    let bound = if run.quick() { 2 } else { 3 };
+    let deadline = run.start + std::time::Duration::from_secs_f64(run.budget_s);
+    let (mut total_sched, mut total_steps, mut min_bound) = (0u64, 0u64, usize::MAX);
+    for (name, size, warm, threads) in &scenarios {
+        let calls_arc: Arc<Vec<(Vec<f32>, Option<Vec<i8>>, i64, usize)>> = Arc::new(calls.iter().map(|c| (c.v.clone(), c.v8.clone(), c.t, c.h)).collect());
+        let mut run_one = |prefix: &[usize], _b: usize| -> Result<Vec<Point>, ExecError> {
+            configure_lsh_cache_size(64);
+            clear_lsh_cache();
+            for w in warm {
+                let _ = call_bucket(&calls[*w]);
+            }
+            configure_lsh_cache_size(*size);
+            let results: Arc<Mutex<Vec<(usize, usize, usize, i64)>>> = Arc::new(Mutex::new(vec![]));
+            let mut bodies: Vec<Body> = vec![];
+            for (tid, ops) in threads.iter().enumerate() {
+                let (ops, results, calls_arc) = (ops.clone(), results.clone(), calls_arc.clone());
+                bodies.push(Box::new(move || {
+                    for (k, o) in ops.iter().enumerate() {
+                        match o {
+                            COp::Bucket(i) => {
+                                let (v, v8, t, h) = &calls_arc[*i];
+                                let got = match v8 {
+                                    Some(v8) => lsh_bucket_int8(v8, *t, *h),
+                                    None => lsh_bucket(v, *t, *h),
+                                };
+                                results.lock().unwrap().push((tid, k, *i, got));
+                            }
+                            COp::Clear => clear_lsh_cache(),
+                            COp::Cfg(i) => configure_lsh_cache_size(cfg_sizes()[*i]),
+                            COp::Prewarm(i) => {
+                                let (t, hh, d) = prewarms()[*i];
+                                prewarm_lsh_cache(t, hh, d)
+                            }
+                        }
+                    }
+                }));
+            }
+            let points = execute(bodies, prefix, &mut |_| {})?;
+            run.evaluations.fetch_add(1, std::sync::atomic::Ordering::Relaxed);
+            for (tid, k, i, got) in results.lock().unwrap().iter() {
+                if *got != reference[*i] {
+                    let choices: Vec<usize> = points.iter().map(|p| p.enabled.iter().position(|x| *x == p.chosen).unwrap()).collect();
+                    run.violation(
+                        &format!("lsh_cache:interleaving:{name}:bucket_depends_on_concurrent_use"),
+                        json!({"scenario": name, "schedule": choices, "sites": points.iter().map(|p| format!("{}@{}", p.chosen, p.site)).collect::<Vec<_>>()}),
+                        format!("scenario {name} (cache size {size}, threads {threads:?}): thread {tid} op {k} bucket call #{i} returned {got}, {} in a freshly cleared cache; schedule {}", reference[*i], points.iter().map(|p| format!("{}@{}", p.chosen, p.site)).collect::<Vec<_>>().join(" -> ")),
+                    );
+                }
+            }
+            Ok(points)
+        };
+        match explore(bound, deadline, &mut run_one) {
+            Ok(st) => {
+                total_sched += st.schedules;
+                total_steps += st.steps;
+                min_bound = min_bound.min(st.max_preemptions_completed);
+                if st.deadlocks > 0 {
+                    run.violation(&format!("lsh_cache:interleaving:{name}:deadlock"), json!({"scenario": name}), format!("{} schedules of cache scenario {name} end with no enabled participant", st.deadlocks));
+                }
+                if st.capped {
+                    run.capped.store(true, std::sync::atomic::Ordering::Relaxed);
+                }
+            }
+            Err(e) => run.machinery_error(format!("cache scenario {name}: {e:?}")),
+        }
+    }
+    run.put("cache_interleavings", json!({"scenarios": scenarios.len(), "schedules": total_sched, "scheduling_points_visited": total_steps, "preemption_bound": bound, "preemption_bound_completed_in_every_scenario": if min_bound == usize::MAX { 0 } else { min_bound },
+        "rule": "seven scenarios of 2-3 real threads (bucket calls on colliding and distinct keys, clear, resize to 0/1, prewarm) on the process-global hyperplane cache, ALL schedules with at most B preemptions at the cache's four lock acquisitions (lookup read, miss write, clear, configure); every bucket call must return the value computed in a freshly cleared cache"}));
+    run.put("schedules", json!(total_sched));
 }
 
 fn probe_laws(p: &[i64], bucket: i64, n: usize) -> Option<(&'static str, String)> {
